@@ -776,3 +776,29 @@ theorem C13_ws_frames_m10_fails :
     sits in `sseResponseStream.Transcode`'s single `Write`). Every `bind` case of the run also compares the real
     `Transcode` output of the bound transcoder with the marshaler's bare document. -/
 theorem C13_facts_framing_site : GB.Generated.responseTranscodeFramingMentions = [] := by decide
+
+/-! ## ===== round 5: `strings.ToValidUTF8` on valid input ===== -/
+
+/-- `strings.ToValidUTF8` leaves valid UTF-8 untouched (so for well-formed status messages `closeReason` is the
+    cut alone — the model of the earlier rounds). -/
+theorem C13_toValidUTF8_id (s : Bytes) (h : ValidUTF8 s = true) : toValidUTF8 s = s := toValidUTF8_id s h
+
+/-- `ToValidUTF8` is idempotent. -/
+theorem C13_toValidUTF8_idem (s : Bytes) : toValidUTF8 (toValidUTF8 s) = toValidUTF8 s :=
+  toValidUTF8_id _ (toValidUTF8_valid s)
+
+/-- For a status message that is valid UTF-8 the close reason is a prefix of the reason itself,
+    `code <gRPC code>: <message>`, and the whole of it when that fits into 123 bytes. -/
+theorem C13_close_error_valid_message (c : Nat) (m : Bytes) (hc : c < 2 ^ 32) (hm : ValidUTF8 m = true) :
+    (closeFrame (.status c m)).2 <+: reasonPrefix c ++ m ∧
+    ((reasonPrefix c ++ m).length ≤ 123 → (closeFrame (.status c m)).2 = reasonPrefix c ++ m) := by
+  have h := (C13_close_error c m hc).2.2.2.2.2.1
+  rw [toValidUTF8_id m hm] at h
+  refine ⟨h, ?_⟩
+  intro hlen
+  rw [closeFrame_reason]
+  simp only [websocketError]
+  unfold closeReasonWhole
+  rw [toValidUTF8_ascii_prefix _ _ (reasonPrefix_ascii c hc), toValidUTF8_id m hm]
+  unfold closeReason maxCloseReasonLen
+  rw [if_pos hlen]
